@@ -230,14 +230,16 @@ fn check(mode: &str, text: &str, width: usize) -> Result<(u32, bool), (String, S
     let mut had_wide_single = false;
     // without the `wrap_help` feature clap does not wrap at all: the width bound is then not
     // clap's to keep (content preservation still is)
-    if !styled && width > 0 && cfg!(feature = "full") {
+    // text without escape sequences is plain text whichever wrapper it goes through
+    let plain_text = !styled || !text.contains('\x1b');
+    if plain_text && width > 0 && cfg!(feature = "full") {
         for line in inner.split('\n') {
             let t = line.trim_end_matches(' ');
             if width_of(t) > width {
                 let body = t.trim_start_matches(' ');
                 if body.contains(' ') {
                     return Err((
-                        "plain: a line holding several words is wider than the width".into(),
+                        if styled { "escape-free text through the styled wrapper: a line holding several words is wider than the width".into() } else { "plain: a line holding several words is wider than the width".into() },
                         format!("line {:?} has width {} > {} — output {:?}", t, width_of(t), width, inner),
                     ));
                 }
